@@ -27,6 +27,7 @@ func (m *Model) hashForWrite(tk string, ts int64) *hashEnt {
 	m.hashDrop(tk)
 	e := &hashEnt{f: map[string]string{}}
 	m.hash[tk] = e
+	m.noteGen("hash", tk, ts)
 	return e
 }
 
@@ -47,6 +48,7 @@ func (m *Model) applyHash(o Op) Exp {
 			return Exp{R: rInt(0)}
 		}
 		e.f[o.A[0]] = o.A[1]
+		m.noteAdd("hash", tk, o.A[0])
 		if had {
 			return Exp{R: rInt(0)}
 		}
@@ -58,6 +60,7 @@ func (m *Model) applyHash(o Op) Exp {
 		e := m.hashForWrite(tk, o.Ts)
 		for i := 0; i < len(o.A); i += 2 {
 			e.f[o.A[i]] = o.A[i+1]
+			m.noteAdd("hash", tk, o.A[i])
 		}
 		return Exp{R: rOK()}
 	case "hget":
@@ -151,6 +154,7 @@ func (m *Model) applyHash(o Op) Exp {
 		e := m.hashForWrite(tk, o.Ts)
 		cur += delta
 		e.f[o.A[0]] = strconv.FormatInt(cur, 10)
+		m.noteAdd("hash", tk, o.A[0])
 		return Exp{R: rInt(cur)}
 	case "hclear":
 		m.dev("D7")
